@@ -6,7 +6,7 @@
    A compressed block is the opaque letter TZ/TL of the input alphabet (CliBase.v): the round trip of
    zlib / LZO with paired persistent state is assumed there and exercised by the correspondence run. *)
 From LV Require Import Dec.CliBase Dec.CliFbProofs Dec.CliDec Dec.CliDecZ Dec.CliMsg Dec.CliInit Dec.RefEnc Dec.RefEncZ
-     Dec.CliRtBase Dec.CliRtSimple Dec.CliRtHextile Dec.CliRtZ Dec.CliRtTile Dec.CliRtZrle Dec.CliRtTrle Dec.CliRtTight Dec.CliCopyProofs Dec.CliRead Dec.CliReqProofs Dec.CliMsgProofs Dec.CliExamples Dec.CliMsgAll Dec.CliReadLink Dec.CliZrleBound.
+     Dec.CliRtBase Dec.CliRtSimple Dec.CliRtHextile Dec.CliRtZ Dec.CliRtTile Dec.CliRtZrle Dec.CliRtTrle Dec.CliRtTight Dec.CliCopyProofs Dec.CliRead Dec.CliReqProofs Dec.CliMsgProofs Dec.CliExamples Dec.CliMsgAll Dec.CliReadLink Dec.CliZrleBound Dec.CliCompact.
 Local Open Scope Z_scope.
 
 (* the partial, C-mirroring row writer coincides with the total spec-level blit inside the framebuffer *)
@@ -49,6 +49,16 @@ Example C07_roundtrip_corre_nonvacuous :
   st_wf s_ex /\ bypp_ok s_ex /\ 0 <= 1 /\ 0 <= 2 /\ 1 <= 3 <= 255 /\ 0 <= 2 <= 255 /\ 1 + 3 <= c_w s_ex /\ 2 + 2 <= c_h s_ex /\
   rows_wf 3 2 rows_ex /\ Forall (Forall (px_ok (bypp_of s_ex))) rows_ex /\ 3 + 3 * 2 <= cCoRREBound_num / (4 + bypp_of s_ex).
 Proof. exact hyps_rect_ex. Qed.
+
+(* ... stated on what the client actually tests - the EMITTED sub-rectangle count (audit item 12): a flat 255 x 255 rectangle,
+   excluded by the area condition above, is covered (its plan has at most 3 redundant sub-rectangles) *)
+Theorem C07_roundtrip_corre_count : forall ch s x y w h tgt ts,
+  st_wf s -> bypp_ok s -> 0 <= x -> 0 <= y -> 0 <= w <= 255 -> 0 <= h <= 255 ->
+  x + w <= c_w s -> y + h <= c_h s ->
+  rows_wf w h tgt -> Forall (Forall (px_ok (bypp_of s))) tgt ->
+  zlen (snd (plan ch 0 255 255 w h (pxmod_of (bypp_of s)) tgt)) <= cCoRREBound_num / (4 + bypp_of s) ->
+  dec_corre x y w h s (toks (ref_corre ch (bypp_of s) w h tgt) ++ ts) = Ok tt (set_fb s (blit_spec (c_fb s) x y tgt)) ts.
+Proof. exact roundtrip_corre_count. Qed.
 
 (* Hextile: raw tiles, background / foreground specified or carried over from the previous tile,
    monochrome or coloured sub-rectangles, redundant sub-rectangles, empty sub-rectangle lists *)
@@ -288,6 +298,13 @@ Theorem C07_callbacks_cursor : forall s xh yh w h pix mask ts,
   dec_cursor xh yh w h cE_RichCursor s (toks (pix ++ mask) ++ ts)
   = Ok tt (add_ev s (EvCursor xh yh w h (bypp_of s) pix (bits_of mask ((w + 7) / 8) w h))) ts.
 Proof. exact cursor_rich. Qed.
+
+(* Tight's compact length (audit item 5): the client's reader inverts the encoder for every length below 2^22, across the
+   127/128 and 16383/16384 boundaries.  (In the mirror it is read on Tight's "no zlib" path; the length field in front of
+   a deflate block is rendered by the harness from the real zlib output and is not part of the token alphabet.) *)
+Theorem C07_compact_len_roundtrip : forall n s ts, 0 <= n < 4194304 ->
+  rd_compact s (toks (compact_len n) ++ ts) = Ok n s ts.
+Proof. exact compact_len_roundtrip. Qed.
 
 (* a FramebufferUpdate whose rectangles each decode (rect_steps) is processed completely: incremental
    update request sent, FinishedFrameBufferUpdate reported; a Raw rectangle is such a step *)
